@@ -322,7 +322,8 @@ int main(void)
     else if (!strcmp(t[0], "limit") && nt >= 2) limitN = strtoull(t[1], 0, 10);
     else if (!strcmp(t[0], "feed") && nt >= 4) {     /* feed il ol useIdone: next block of the stream, or a flush request once it is used up */
       size_t il = (size_t)strtoull(t[1], 0, 10), ol = (size_t)strtoull(t[2], 0, 10);
-      if (pos < limitN) { if (il > limitN - pos) il = (size_t)(limitN - pos); run_process(1, 0, atoi(t[3]), il, ol, t + 4, nt - 4, 0); }
+      /* once end-of-input has been signalled no more input is offered (soxr.h: "no data is available nor shall be available") */
+      if (pos < limitN && !S->flushing) { if (il > limitN - pos) il = (size_t)(limitN - pos); run_process(1, 0, atoi(t[3]), il, ol, t + 4, nt - 4, 0); }
       else run_process(0, 0, 0, 0, ol, t + 4, nt - 4, 0);
     }
     else if (!strcmp(t[0], "drain") && nt >= 2) {    /* drain ol: end of input, then requests of ol frames until one returns nothing, then one more */
